@@ -79,7 +79,10 @@ extern void *mpt_buffer_insert(MPT_STRUCT(buffer) *buf, size_t pos, size_t len)
 	if (init) {
 		while (used < pos) {
 			if (init(base + used, 0) < 0) {
-				break;
+				/* data behind is not part of buffer */
+				buf->_used = used;
+				errno = ENOMEM;
+				return 0;
 			}
 			used += size;
 		}
